@@ -738,3 +738,74 @@ R.mutant("was-deleted-read-after-the-flag-is-cleared", SESSION,
 R.mutant("benign-was-deleted-renamed", SESSION,
          chain(sub("        was_deleted = state._deleted\n        if state._deleted:\n            if revert_deletion:", "        flushed_delete = state._deleted\n        if flushed_delete:\n            if revert_deletion:"),
                sub("        elif revert_deletion and was_deleted:\n", "        elif flushed_delete and revert_deletion:\n")), None)
+
+# ---------------------------------------------------------------------- rob-B2: behaviour-preserving refactorings that must stay silent
+# (families of benign/rfB_13, rfB_14, rfB_15 and further ones) and breaking edits made THROUGH the same shapes
+_P_DEL = "        return self.key is not None and self._attached and self._deleted\n"
+_P_PERS = "        return self.key is not None and self._attached and not self._deleted\n"
+_P_DET = "        return self.key is not None and not self._attached\n"
+_GC = "        if self.key is None or not self._attached:\n            # transient / pending, or detached\n            return False\n"
+R.mutant("benign-predicates-as-guard-clauses", STATE,
+         chain(sub(_P_DEL, _GC + "        return self._deleted\n"), sub(_P_PERS, _GC + "        return not self._deleted\n"),
+               sub(_P_DET, "        if self.key is None:\n            return False\n        return not self._attached\n")), None)
+R.mutant("benign-predicates-locals-and-ifelse", STATE,
+         chain(sub(_P_PERS, "        has_identity = self.key is not None\n        in_session = has_identity and self._attached\n        if in_session:\n            return not self._deleted\n        else:\n            return False\n"),
+               sub("        return self.key is None and self._attached\n", "        return False if self.key is not None else bool(self._attached)\n")), None)
+R.mutant("benign-predicates-share-a-helper-property", STATE,
+         chain(sub("    @property\n    def deleted(self) -> bool:\n", "    @property\n    def _has_identity_in_session(self) -> bool:\n        return self.key is not None and self._attached\n\n    @property\n    def deleted(self) -> bool:\n"),
+               sub(_P_DEL, "        return self._has_identity_in_session and self._deleted\n"), sub(_P_PERS, "        return self._has_identity_in_session and not self._deleted\n")), None)
+R.mutant("guard-clause-persistent-forgets-deleted", STATE, sub(_P_PERS, "        if self.key is None:\n            return False\n        return self._attached\n"), "C35-R1")
+R.mutant("guard-clause-detached-wrong-early-value", STATE, sub(_P_DET, "        if self.key is None:\n            return True\n        return not self._attached\n"), "C35-R1")
+R.mutant("helper-property-deleted-ignores-attached", STATE,
+         chain(sub("    @property\n    def deleted(self) -> bool:\n", "    @property\n    def _has_identity(self) -> bool:\n        return self.key is not None\n\n    @property\n    def deleted(self) -> bool:\n"),
+               sub(_P_DEL, "        return self._has_identity and self._deleted\n")), "C35-R1")
+# _detach_states: dispatcher held in a local, flags renamed, nested if flattened to if/elif (benign/rfB_14)
+_DS_HEAD = ("        persistent_to_detached = (\n            session.dispatch.persistent_to_detached or None\n        )\n        deleted_to_detached = session.dispatch.deleted_to_detached or None\n"
+            "        pending_to_transient = session.dispatch.pending_to_transient or None\n        persistent_to_transient = (\n            session.dispatch.persistent_to_transient or None\n        )\n")
+_DS_HEAD_NEW = ("        dispatch = session.dispatch\n\n        persistent_to_detached = dispatch.persistent_to_detached or None\n        deleted_to_detached = dispatch.deleted_to_detached or None\n"
+                "        pending_to_transient = dispatch.pending_to_transient or None\n        persistent_to_transient = dispatch.persistent_to_transient or None\n")
+_DS_CHAIN = ("            if persistent:\n                if to_transient:\n                    if persistent_to_transient is not None:\n                        persistent_to_transient(session, state)\n"
+             "                elif persistent_to_detached is not None:\n                    persistent_to_detached(session, state)\n"
+             "            elif deleted and deleted_to_detached is not None:\n                deleted_to_detached(session, state)\n"
+             "            elif pending and pending_to_transient is not None:\n                pending_to_transient(session, state)\n")
+_DS_CHAIN_FLAT = ("            if persistent and to_transient:\n                if persistent_to_transient is not None:\n                    persistent_to_transient(session, state)\n"
+                  "            elif persistent:\n                if persistent_to_detached is not None:\n                    persistent_to_detached(session, state)\n"
+                  "            elif deleted and deleted_to_detached is not None:\n                deleted_to_detached(session, state)\n"
+                  "            elif pending and pending_to_transient is not None:\n                pending_to_transient(session, state)\n")
+R.mutant("benign-detach-dispatch-alias-and-flat-chain", STATE, chain(sub(_DS_HEAD, _DS_HEAD_NEW), sub(_DS_CHAIN, _DS_CHAIN_FLAT)), None)
+R.mutant("benign-detach-truthiness-and-continue", STATE,
+         sub(_DS_CHAIN, "            if pending:\n                if pending_to_transient:\n                    pending_to_transient(session, state)\n                state._strong_obj = None\n                continue\n"
+                        "            if deleted:\n                if deleted_to_detached:\n                    deleted_to_detached(session, state)\n"
+                        "            elif to_transient:\n                if persistent_to_transient:\n                    persistent_to_transient(session, state)\n"
+                        "            elif persistent_to_detached:\n                persistent_to_detached(session, state)\n"), None)
+R.mutant("detach-dispatch-alias-flat-chain-arms-swapped", STATE,
+         chain(sub(_DS_HEAD, _DS_HEAD_NEW), sub(_DS_CHAIN, _DS_CHAIN_FLAT.replace("            if persistent and to_transient:\n", "            if persistent and not to_transient:\n"))), "C35-R3")
+R.mutant("detach-dispatch-alias-event-vanishes", STATE,
+         chain(sub(_DS_HEAD, _DS_HEAD_NEW.replace("        pending_to_transient = dispatch.pending_to_transient or None\n", "        pending_to_transient = None\n"))), "C35-R2")
+# _after_attach: dispatcher alias, arms swapped together with the test
+_AA_OLD = "        if state.key:\n            self.dispatch.detached_to_persistent(self, state)\n        else:\n            self.dispatch.transient_to_pending(self, state)\n"
+R.mutant("benign-attach-dispatch-alias-inverted-test", SESSION,
+         sub(_AA_OLD, "        dispatch = self.dispatch\n        if state.key is None:\n            dispatch.transient_to_pending(self, state)\n        else:\n            dispatch.detached_to_persistent(self, state)\n"), None)
+R.mutant("attach-dispatch-alias-wrong-arm", SESSION,
+         sub(_AA_OLD, "        dispatch = self.dispatch\n        if state.key is not None:\n            dispatch.transient_to_pending(self, state)\n        else:\n            dispatch.detached_to_persistent(self, state)\n"), "C35-R3")
+# _register_persistent: the pending states held in a local / tested per state
+_PP_OLD = "            for state in states.intersection(self._new):\n                pending_to_persistent(self, state)"
+R.mutant("benign-pending-to-persistent-local-set", SESSION, sub(_PP_OLD, "            were_pending = states.intersection(self._new)\n            for state in were_pending:\n                pending_to_persistent(self, state)"), None)
+R.mutant("benign-pending-to-persistent-membership-test", SESSION, sub(_PP_OLD, "            for state in states:\n                if state in self._new:\n                    pending_to_persistent(self, state)"), None)
+R.mutant("pending-to-persistent-local-set-of-all-states", SESSION, sub(_PP_OLD, "            were_pending = set(states)\n            for state in were_pending:\n                pending_to_persistent(self, state)"), "C35-R3")
+# ownership through a private helper (benign/rfB_15): the PK switch of _register_persistent moved into a helper
+_SW_OLD = ("                    self.identity_map.safe_discard(state)\n                    trans = self._transaction\n                    assert trans is not None\n"
+           "                    if state in trans._key_switches:\n                        orig_key = trans._key_switches[state][0]\n                    else:\n                        orig_key = state.key\n"
+           "                    trans._key_switches[state] = (\n                        orig_key,\n                        instance_key,\n                    )\n                    state.key = instance_key\n")
+_SW_HEAD = "    def _register_altered(self, states: Iterable[InstanceState[Any]]) -> None:\n"
+R.mutant("benign-key-switch-in-helper-of-an-owner", SESSION,
+         chain(sub(_SW_OLD, "                    self._switch_identity_key(state, instance_key)\n"),
+               sub(_SW_HEAD, "    def _switch_identity_key(self, state: InstanceState[Any], instance_key: Any) -> None:\n        self.identity_map.safe_discard(state)\n        trans = self._transaction\n"
+                             "        assert trans is not None\n        key_switches = trans._key_switches\n        if state in key_switches:\n            orig_key = key_switches[state][0]\n        else:\n"
+                             "            orig_key = state.key\n        key_switches[state] = (orig_key, instance_key)\n        state.key = instance_key\n\n" + _SW_HEAD)), None)
+_VP = "    def _validate_persistent(self, state: InstanceState[Any]) -> None:\n"
+R.mutant("helper-of-a-non-owner-writes-deleted", SESSION,
+         sub(_VP, "    def _forget_deletion(self, state: InstanceState[Any]) -> None:\n        state._deleted = False\n\n" + _VP + "        self._forget_deletion(state)\n"), "C35-R4")
+R.mutant("helper-shared-by-owner-and-non-owner-writes-key", SESSION,
+         chain(sub(_SW_OLD.replace("                    self.identity_map.safe_discard(state)\n", ""), _SW_OLD.replace("                    self.identity_map.safe_discard(state)\n", "").replace("                    state.key = instance_key\n", "                    self._set_key(state, instance_key)\n")),
+               sub(_VP, "    def _set_key(self, state: InstanceState[Any], key: Any) -> None:\n        state.key = key\n\n" + _VP + "        self._set_key(state, state.key)\n")), "C35-R4")
